@@ -3,6 +3,9 @@
 // executed on ONE Interpreter; the output, exit status and error class of the
 // runs are compared with the specification's prediction, and a run made after
 // ResetVars+ResetRand additionally with the same run on a new interpreter.
+// Every run is handed a standard input of its own and is called the way its
+// configuration says (Execute, ExecuteContext(Background), ExecuteContext with a
+// context that is cancelled / expires the moment the call has returned).
 // In the other direction Record drives longer random histories and writes what
 // every run printed as events for Trace_Reuse.tla.
 package c14
